@@ -23,6 +23,7 @@ type gen struct {
 	r        *rand.Rand
 	features map[string]bool
 	badness  float64 // multiplier for choices that make convergen reject the input
+	profile  string
 }
 
 // bad is chance() for rejection-inducing choices, scaled by the profile.
@@ -291,6 +292,23 @@ func (g *gen) genStructPair(idx int, decl *strings.Builder, notes *[]string, ext
 			dstFields = append(dstFields, gField{dn, dt})
 		}
 	}
+	if g.profile == "casefold" {
+		// several spellings of one name on both sides
+		for _, base := range [][]string{{"ID", "Id", "id", "iD"}, {"Name", "name", "NAME"}, {"URL", "Url", "url"}}[:1+g.r.Intn(3)] {
+			t := g.pick([]string{"int", "string", "MyInt"})
+			for _, v := range base {
+				if g.chance(0.6) && !usedD[v] {
+					usedD[v] = true
+					dstFields = append(dstFields, gField{v, t})
+				}
+				if g.chance(0.5) && !usedS[v] {
+					usedS[v] = true
+					srcFields = append(srcFields, gField{v, t})
+				}
+			}
+		}
+		g.feat("case-variants-of-one-name")
+	}
 	if g.chance(0.15) { // destination-only field
 		dn := g.fieldName(usedD)
 		dstFields = append(dstFields, gField{dn, g.pick(sameTypes)})
@@ -443,7 +461,7 @@ func (g *gen) genMethod(idx int, decl *strings.Builder, profile string) gMethod 
 			}
 		}
 	}
-	if g.chance(0.2) {
+	if g.chance(0.2) || (g.profile == "casefold" && g.chance(0.75)) {
 		add(" :case:off")
 		g.feat(":case:off")
 	}
@@ -470,6 +488,36 @@ func (g *gen) genMethod(idx int, decl *strings.Builder, profile string) gMethod 
 	}
 	dps := dstPaths(df)
 	sps := srcPaths(g, sf)
+	if g.profile == "casefold" {
+		// notations that name one spelling (or a spelling no field has)
+		var variants []string
+		for _, f := range df {
+			switch strings.ToLower(f.Name) {
+			case "id", "name", "url":
+				variants = append(variants, f.Name)
+			}
+		}
+		variants = append(variants, "ID", "Id", "iD", "NAME", "uRL")
+		for i := 0; i < 1+g.r.Intn(3); i++ {
+			v := g.pick(variants)
+			switch g.r.Intn(5) {
+			case 0:
+				add(" :skip %s", v)
+			case 1:
+				add(" :map %s %s", g.pick(sps), v)
+			case 2:
+				add(" :literal %s %s", v, literalFor(typeOfField(df, v)))
+			case 3:
+				add(" :skip /^%s$/", v)
+			default:
+				fn := fmt.Sprintf("cf%d_%d", idx, i)
+				sp := g.pick(sps)
+				fmt.Fprintf(decl, "func %s(v %s) (r %s) { return }\n", fn, typeOfField(sf, strings.Split(sp, ".")[0]), typeOfField(df, v))
+				add(" :conv %s %s %s", fn, strings.Split(sp, ".")[0], v)
+			}
+		}
+		g.feat("notation-on-one-spelling")
+	}
 	// skip
 	if g.chance(0.3) && len(dps) > 0 {
 		p := g.pick(dps)
@@ -701,6 +749,7 @@ func (m gMethod) render() string {
 // "malformed", "scoping", "layout".
 func GenCase(seed int64, idx int, profile string) GCase {
 	g := &gen{r: rand.New(rand.NewSource(seed*1000003 + int64(idx))), features: map[string]bool{}, badness: 0.12}
+	g.profile = profile
 	if profile == "malformed" {
 		g.badness = 1.6
 	}
